@@ -9,6 +9,32 @@ CHECKS = {
         "observed executions only.",
         note="tolerance 0 on exact-arithmetic norms over the dyadic grid, 1e-12 elsewhere, conditioning-aware term for HamacherSum; numpy ufunc arithmetic trusted",
     ),
+    "C05": dict(
+        level="exploration",
+        technique="runtime monitor on Hedge.hedge (scalar reference formulas) + offline relation checker over the recorded (hedge,x)->y table + nested monitored calls for inverse pairs",
+        text="Every observed Hedge.hedge element is compared with an independent scalar formula; range, end points, (anti)monotonicity, "
+        "very<=x<=somewhat and the inverse pairs are checked over the recorded table; the dyadic grid is enumerated exhaustively, random "
+        "doubles and the neighbours of 0.5 are sampled. Held on the observed executions only.",
+        note="formula tolerance 1e-15, inverse pairs 1e-12 with a conditioning-aware term for seldom(extremely x) next to 1; x < 2^-500 excluded from compositions that square first",
+    ),
+    "C12": dict(
+        level="fault_enumeration",
+        technique="shadow state machine attached to OutputVariable.defuzzify/clear and every Defuzzifier.defuzzify (raw value captured at return), exact comparison after every call; scripted defuzzifier with injected failures",
+        text="A per-row reference cascade follows every output variable and judges value and previous value after every defuzzification, "
+        "including calls whose defuzzifier raises (state must be unchanged). Sequences of defuzzified values up to length L are "
+        "enumerated under every split into calls/batches, all 12 settings, 4 result forms, a failure at every call index and clear() "
+        "between calls; real engines add the real defuzzifiers' return types.",
+        note="raw defuzzified value = the object returned by Defuzzifier.defuzzify, copied at return; exact comparison",
+    ),
+    "C20": dict(
+        level="fault_enumeration",
+        technique="observing wrapper around Settings.context (snapshots of vars(settings) at __enter__/__exit__) compared with a stack model; programs of nested contexts with exceptions injected at every level",
+        text="Every context entry and exit in the process is observed: named keys must take the given values inside and be restored at "
+        "exit (normal or exceptional), unnamed keys must not be touched by entry or exit; Op.str, Op.is_close and scalar() are probed "
+        "against the model inside and outside. Depth-2 nestings over all single/double key subsets and exception placements are "
+        "enumerated, deeper programs are random.",
+        note="restored = identical object or equal value of the same type; only vars(settings) is observed",
+    ),
 }
 NOT_APPLICABLE = [
     {"property_id": p, "reason": "check not built yet in this session (work in progress; see DESIGN.md §4)"} for p in ALL if p not in CHECKS
